@@ -48,7 +48,7 @@ class DictFinder(importlib.abc.MetaPathFinder, importlib.abc.Loader):
         exec(code, module.__dict__)
 
 
-def run(files, entry="main.py", budget=200000, profile=None):
+def run(files, entry="main.py", budget=200000, profile=None, collect_lines=None):
     """returns (stdout, error_class_name).  `profile`, if given, is installed with sys.setprofile."""
     finder = DictFinder(files)
     before = set(sys.modules)
@@ -60,6 +60,8 @@ def run(files, entry="main.py", budget=200000, profile=None):
     def tracer(frame, event, arg):
         if event == "line":
             count[0] += 1
+            if collect_lines is not None and frame.f_code.co_filename == entry:
+                collect_lines.add(frame.f_lineno)
             if count[0] > budget:
                 raise BudgetExceeded()
         return tracer
